@@ -24,6 +24,16 @@ anchor = "func Now() Time {\n"
 assert s.count(anchor) == 1, "time.Now anchor not found"
 s = s.replace(anchor, anchor + "\tif VerifNowHook != nil {\n\t\treturn VerifNowHook()\n\t}\n")
 s += "\n// VerifNowHook, when set, replaces the wall clock (verification harness only).\nvar VerifNowHook func() Time\n"
+s += """
+// VerifRealNow returns the real wall clock regardless of VerifNowHook (harness bookkeeping: deadlines, wall_s).
+func VerifRealNow() Time {
+	h := VerifNowHook
+	VerifNowHook = nil
+	t := Now()
+	VerifNowHook = h
+	return t
+}
+"""
 dst = os.path.join(OUT, "time.go.txt")
 open(dst, "w").write(s)
 overlay[src] = dst
